@@ -14,6 +14,51 @@ Two candidate repairs of the moment latch (F5b) are modelled: `copyPerFit` (repa
 `gs_/eg_reentrant_refines_spec`: same view, but the user's object is rewritten by every fit).
 The theorems are about the latches/flags of the machines; they say nothing about Python object identity,
 pickle or clone internals (pickle is the identity of the modelled state by definition).
+
+CLAUSE -> THEOREM TABLE (review R2).  "src" = the machine runs under the rule flags DERIVED FROM THE SOURCE
+(Generated/LifecycleSrc.lean), i.e. it is a statement about the code in /repo today; "hyp" = a statement about a
+hypothetical rule (repair A `copyPerFit`, repaired `nu`), kept because the counter-witnesses refer to it.
+
+  A  refit on D = fresh fit on D (TO, EG, GS, CR, adversarial warm_start=False), every history
+       src: src_to_refines_spec, src_to_history_free; src_gs_refines_spec, src_gs_history_free,
+            src_gs_refines_spec_any_moment; src_cr_refines_spec, src_cr_history_free;
+            src_adv_refines_spec (pickle RESULT masked), src_adv_history_free;
+            EG, nu given:  src_eg_refines_spec_nu_given, src_eg_history_free_nu_given, src_eg_refines_spec_any_moment
+            EG, nu=None:   FALSE of the code (F5c, known finding): src_eg_nu_none_is_f5c (witness fit D1; fit D2),
+                           PARTIAL: src_eg_nu_none_results_refine_spec_partial (all results as specified, every
+                           history), src_eg_nu_none_cls_partial (state = unfitted / fresh twin / twin with an
+                           earlier data set's automatic nu, never anything else), src_eg_nu_none_first_fit_fresh
+            attribute level (lifted definite-assignment tables): src_fit_shape, src_fit_overwrites_all_fitted_state,
+                           src_fit_history_reads, src_cr_fit_shape (one static path, dead at run time: harness relation
+                           C19.cr_1d_path_dead); src_estimator_cloned (every `.fit` receiver is a clone / fresh object)
+            prefit=True:   src_to_prefit, src_to_prefit_history_free (clone-free histories; clone: to_prefit_clone_then_fit)
+            set_params:    src_no_stale_derived, src_params_refines_spec, src_gs_set_params_repaired
+       hyp: gs_history_free, gs_refines_spec, gs_reentrant_*, eg_history_free, eg_refines_spec, eg_reentrant_*,
+            to_*, cr_*, adv_*; counter-witnesses for the old rules: gs_current_not_history_free, eg_current_*,
+            cr_current_not_history_free, adv_current_not_history_free, to_without_clone_not_history_free,
+            params_stale_derived_not_spec
+  B  fit returns the estimator itself
+       src: src_fit_returns_self (lifted return expressions, all 7 classes), src_gs_fit_returns_self,
+            src_eg_fit_returns_self, src_to_fit_returns_self, src_cr_fit_returns_self, src_adv_fit_returns_self
+            (from ANY state); hyp: gs_current_fit_returns_none (F5a)
+  C  fit never changes the constructor parameters reported by get_params
+       src: src_params_unchanged (TO, GS, CR, adversarial: no parameter rebound or stored into, lifted),
+            src_eg_params_assigned (EG rebinds exactly `nu`: F5c), src_eg_nu_unchanged_nu_given,
+            src_fit_escapes_trusted; src_constraints_loaded_in_place + src_constraints_object_rewritten: the OBJECT
+            behind `constraints` is the same object but is written to by `load_data` (identity kept, content not) —
+            harmless for A by src_gs_/src_eg_refines_spec_any_moment
+       hyp: gs_params_unchanged, eg_params_unchanged (repair A), to_params_unchanged
+  D  prediction does not alter fitted state; same seed repeats the answer
+       src: src_predict_pure, src_predict_methods_present (lifted), src_predict_does_not_alter_state (every history);
+            *_predict_pure (every state, every rule).  The model's predict result does not depend on the seed at all,
+            so "same seed repeats" is the second conjunct of *_predict_pure; the numbers are compared by the harness.
+  E  pickle round trip (TO, EG, GS, CR) predicts like the original
+       src_pickle_restores_state, *_pickle_roundtrip — BY DEFINITION of the model (pickle = identity on the modelled
+       state); nothing about pickling is lifted from the source.  The content of this clause is checked by the
+       harness only (relation C19.pickle_roundtrip).  Adversarial: adv_pickle_state_unchanged (result not claimed).
+  quantifier "call sequences up to length 4": every theorem above is for ALL histories (`List Op`), no bound.
+  totalisation: adv_reachable_invariant / adv_refit_uses_existing_engine (`getD []` never taken on a reachable state),
+       driver_output_covers_every_op (no `zip` truncation in the driver output), view_length, changedCol_length.
 -/
 import FairModel.Lemmas.Lifecycle
 import FairModel.Model.LifecycleSrc
@@ -51,6 +96,11 @@ theorem gs_fit_returns_self (ops : List Op) (d : Data) :
 theorem gs_params_unchanged (r : GSRules) (hm : r.moment = .copyPerFit) (ops : List Op) :
     gsParams ((GS r).run ops) = gsParams gsInit := by
   rw [run_eq_embed (GS r) Spec gsEmb rfl (gs_step_embed r hm)]; rfl
+
+/-- non-vacuity of `gs_history_free` / `gs_params_unchanged`: the hypothesis is met by repair A, on a non-trivial history -/
+example : (GS gsRepaired).run ([.fit D1, .clone, .predict 1] ++ [.fit D2]) = (GS gsRepaired).run [.fit D2] ∧
+    gsParams ((GS gsRepaired).run [.fit D1, .clone, .fit D2]) = gsParams gsInit :=
+  ⟨gs_history_free gsRepaired rfl _ D2, gs_params_unchanged gsRepaired rfl _⟩
 
 theorem gs_predict_pure (r : GSRules) (s : GSState) (k : Nat) :
     ((GS r).step s (.predict k)).1 = s ∧
@@ -118,6 +168,11 @@ theorem eg_history_free (r : EGRules) (g : Bool) (hm : r.moment = .copyPerFit)
     (EG r g).run (ops ++ [.fit d]) = (EG r g).run [.fit d] := by
   have h := run_eq_embed (EG r g) Spec (egEmb g) rfl (eg_step_embed r g hm hn)
   rw [h, h, spec_run_snoc_fit]; rfl
+
+/-- non-vacuity of `eg_history_free`: both hypotheses at once, through the `nu given` alternative with today's `nu` rule -/
+example : (EG ⟨.copyPerFit, .current⟩ true).run ([.fit D1, .pickle, .fit D2w] ++ [.fit D2]) =
+    (EG ⟨.copyPerFit, .current⟩ true).run [.fit D2] :=
+  eg_history_free ⟨.copyPerFit, .current⟩ true rfl (Or.inr rfl) _ D2
 
 theorem eg_refines_spec (g : Bool) (ops : List Op) :
     (EG egRepaired g).view (egCls g) ops = Spec.view specCls ops := by
@@ -318,6 +373,10 @@ theorem cr_current_history_free_same_width (w : Nat) (ops : List Op) (d : Data) 
   simp only at hs
   rcases hs with rfl | rfl <;> simp [CR, crStep, hd, crInit]
 
+/-- non-vacuity of `cr_current_history_free_same_width`: w = 3, a history with two fits, a clone and a predict -/
+example : (CR .current).run ([.fit D1, .predict 0, .clone, .fit D2] ++ [.fit D1]) = (CR .current).run [.fit D1] :=
+  cr_current_history_free_same_width 3 _ D1 rfl (by intro d' h; simp at h; rcases h with rfl | rfl <;> rfl)
+
 example : (CR .repaired).view crCls [.fit D1, .fit D2w, .predict 0, .clone, .fit D1] =
     [(.retSelf, .fresh D1), (.retSelf, .fresh D2w), (.ok, .fresh D2w), (.ok, .unfitted), (.retSelf, .fresh D1)] := by
   decide
@@ -473,6 +532,13 @@ theorem fit_overwrites_all_fitted_state (sh : FitShape) (h1 : sh.historyReads = 
     fit's value through -/
 example : observe ⟨[], ["curve"], [], ["curve"]⟩ (fitOn ⟨[], ["curve"], [], ["curve"]⟩ (fun _ => false) 2 (fun _ => some (1, true)))
     = [some (1, true)] := by decide
+
+/-- non-vacuity of `fit_overwrites_all_fitted_state`: GridSearch's lifted shape meets both hypotheses, reads two fitted
+    attributes in predict, and the two old states / branch choices really differ -/
+example : observe (shapeOf .GS) (fitOn (shapeOf .GS) (fun _ => true) 2 (fun _ => some (1, false))) =
+    observe (shapeOf .GS) (fitOn (shapeOf .GS) (fun _ => false) 2 (fun _ => none)) ∧
+    observe (shapeOf .GS) (fitOn (shapeOf .GS) (fun _ => true) 2 (fun _ => some (1, false))) = [some (2, true), some (2, true)] :=
+  ⟨(fit_overwrites_all_fitted_state (shapeOf .GS) (by decide +kernel) (by decide +kernel) _ _ 2 _ _).1, by decide +kernel⟩
 
 /-- from the source: for ThresholdOptimizer, ExponentiatedGradient and GridSearch, `fit` reads no fitted attribute
     before reassigning it AND every fitted attribute a prediction entry point reads is reassigned on every normally
@@ -644,6 +710,9 @@ theorem src_params_refines_spec (c : EstCls) (hc : c ∈ [EstCls.TO, .EG, .GS, .
     unfold readsDerivedSrc; rw [src_no_stale_derived c hc]; rfl
   rw [h]; exact view_false_eq_spec p0 ops
 
+example : view (readsDerivedSrc .GS) 0 [.fit D1, .setParam 1, .fit D2] = specView 0 [.fit D1, .setParam 1, .fit D2] :=
+  src_params_refines_spec .GS (by decide) 0 _
+
 /-- F5f (found by this check, repaired in /repo 2f54dd0): `GridSearch.fit` used to read `objective_weight`, which
     `__init__` computed as `1.0 - constraint_weight` and `set_params(constraint_weight=…)` does not update — the stale
     machine `view true` above (`params_stale_derived_not_spec`).  Today's source: the machine reads no derived attribute. -/
@@ -710,6 +779,14 @@ theorem to_prefit_fit_returns_self (h0 : List Data) (hne : h0 ≠ []) (ops : Lis
   · rw [to_prefit_history_free h0 hne ops hc d, run_single]
     simp [TOPre, toPreStep, toPreInit, hn, toPreCls]
 
+/-- non-vacuity of the prefit theorems: a fitted user estimator (h0 = [D2w]) and a clone-free history with two fits -/
+example : (TOPre false [D2w]).run ([.predict 0, .fit D1, .pickle, .fit D2] ++ [.fit D1]) = (TOPre false [D2w]).run [.fit D1] ∧
+    ((TOPre false [D2w]).run [.predict 0, .fit D1, .pickle, .fit D2]).user = [D2w] ∧
+    toPreCls [D2w] ((TOPre false [D2w]).run ([.predict 0, .fit D1, .pickle, .fit D2] ++ [.fit D1])) = .fresh D1 :=
+  have hc : cloneFree [.predict 0, .fit D1, .pickle, .fit D2] := by unfold cloneFree; decide
+  ⟨to_prefit_history_free [D2w] (by decide) _ hc D1, to_prefit_user_estimator_untouched [D2w] (by decide) _ hc,
+   (to_prefit_fit_returns_self [D2w] (by decide) _ hc D1).2⟩
+
 /-- clone then fit ≡ a fresh ThresholdOptimizer(prefit=True) around an UNFITTED estimator: both fail in the same way -/
 theorem to_prefit_clone_then_fit (h0 : List Data) (ops : List Op) (d : Data) :
     (TOPre false h0).run (ops ++ [.clone, .fit d]) = (TOPre false []).run [.fit d] ∧
@@ -748,6 +825,265 @@ example : (TOPre false [D2w]).view (toPreCls [D2w]) [.predict 0, .fit D1, .fit D
      (.ok, .unfitted), (.raised .attribute, .broken .attribute), (.raised .attribute, .broken .attribute)] := by decide
 
 end Prefit
+
+/-! ## review R2 — clauses that had no theorem about the SOURCE-DERIVED machines, totalisation, tie -/
+
+section R2
+open LifecycleSrc Generated.LifecycleSrc
+
+/-! ### clause B (fit returns the estimator) for every source-derived machine, from ANY state -/
+
+theorem src_eg_fit_returns_self (g : Bool) (s : EGState) (d : Data) : ((EGsrc g).step s (.fit d)).2 = .retSelf := by
+  unfold EGsrc; rw [src_eg_rules]; simp [EG, egStep, loadConstraints]
+
+theorem src_to_fit_returns_self (s : TOState) (d : Data) : (TOsrc.step s (.fit d)).2 = .retSelf :=
+  to_fit_returns_self _ s d
+
+theorem src_cr_fit_returns_self (s : CRState) (d : Data) : (CRsrc.step s (.fit d)).2 = .retSelf := by
+  unfold CRsrc; rw [src_cr_rule]; exact cr_fit_returns_self s d
+
+theorem src_adv_fit_returns_self (w : Bool) (s : AdvState) (d : Data) : ((ADVsrc w).step s (.fit d)).2 = .retSelf := by
+  rw [src_adv_machine_eq]; rfl
+
+/-! ### clause A for ExponentiatedGradient under today's source, state level -/
+
+/-- `nu` given by the user: the whole modelled state after `fit d` is that of a first fit (the constraints object is
+    loaded with `d` in place, which is also what a first fit does) -/
+theorem src_eg_history_free_nu_given (ops : List Op) (d : Data) :
+    (EGsrc true).run (ops ++ [.fit d]) = (EGsrc true).run [.fit d] := by
+  have hn := src_eg_nu_unchanged_nu_given ops
+  rw [run_snoc, run_single]
+  generalize (EGsrc true).run ops = s at hn
+  rcases s with ⟨m, n, st, f⟩
+  simp only at hn; subst hn
+  unfold EGsrc; rw [src_eg_rules]; simp [EG, egStep, loadConstraints, egInit]
+
+/-- F5c, what DOES hold for `nu=None` under today's source (PARTIAL: the full clause `src_eg_refines_spec` for
+    `nuGiven = false` is false, witness `src_eg_nu_none_is_f5c`): for EVERY history the results column is the
+    specification's — every fit returns self and never raises, predict raises NotFittedError exactly when the
+    specification does, pickle and clone succeed.  (Both views are taken with the constant class, i.e. only the
+    results are compared.) -/
+theorem src_eg_nu_none_results_refine_spec_partial (ops : List Op) :
+    (EGsrc false).view (fun _ => Cls.unfitted) ops = Spec.view (fun _ => Cls.unfitted) ops := by
+  unfold EGsrc; rw [src_eg_rules]
+  apply view_eq_of_sim (EG ⟨.reentrant, .current⟩ false) Spec
+    (fun s t => s.started = t.isSome ∧ s.fitted.isSome = t.isSome) _ _ ⟨rfl, rfl⟩
+  · rintro ⟨m, n, st, f⟩ t o ⟨h1, h2⟩
+    simp only at h1 h2; subst h1
+    cases o <;> cases t <;> cases f <;> simp_all [EG, egStep, Spec, loadConstraints]
+  · intro _ _ _; rfl
+
+/-- the first fit after construction (no fit before it, whatever else happened) is the fresh twin even for `nu=None` -/
+theorem src_eg_nu_none_first_fit_fresh (ops : List Op) (hno : ∀ o ∈ ops, ∀ d', o ≠ Op.fit d') (d : Data) :
+    egCls false ((EGsrc false).run (ops ++ [.fit d])) = .fresh d := by
+  unfold EGsrc; rw [src_eg_rules]
+  have inv : ∀ (ops : List Op) (s : EGState), s.nuParam = none → (∀ o ∈ ops, ∀ d', o ≠ Op.fit d') →
+      ((EG ⟨.reentrant, .current⟩ false).runFrom s ops).nuParam = none := by
+    intro ops
+    induction ops with
+    | nil => intro s hs _; exact hs
+    | cons o os ih =>
+      intro s hs hno
+      apply ih
+      · cases o with
+        | fit d' => exact absurd rfl (hno (.fit d') (by simp) d')
+        | predict k =>
+          show (((EG ⟨.reentrant, .current⟩ false).step s (.predict k)).1).nuParam = none
+          rw [(eg_predict_pure _ _ s k).1]; exact hs
+        | pickle => exact hs
+        | clone => exact hs
+      · intro o' ho'; exact hno o' (List.mem_cons_of_mem _ ho')
+  have hn := inv ops (EG ⟨.reentrant, .current⟩ false).init rfl hno
+  rw [run_snoc]
+  unfold run
+  generalize (EG ⟨.reentrant, .current⟩ false).runFrom (EG ⟨.reentrant, .current⟩ false).init ops = s at hn
+  rcases s with ⟨m, n, st, f⟩
+  simp only at hn; subst hn
+  simp [EG, egStep, loadConstraints, egCls, egFreshNu]
+
+example : egCls false ((EGsrc false).run ([.predict 0, .clone, .pickle] ++ [.fit D2])) = .fresh D2 :=
+  src_eg_nu_none_first_fit_fresh _ (by simp) D2
+
+/-- F5c, complete description of what today's source does for `nu=None` (PARTIAL w.r.t. clause A, which would demand
+    `.fresh d` throughout): after ANY history the estimator is unfitted, the fresh twin of its last data, or the twin
+    fitted on its last data with the automatic `nu` of an earlier data set — never "like no twin" and never broken -/
+theorem src_eg_nu_none_cls_partial (ops : List Op) :
+    egCls false ((EGsrc false).run ops) = .unfitted ∨
+    (∃ d, egCls false ((EGsrc false).run ops) = .fresh d) ∨
+    (∃ d d', egCls false ((EGsrc false).run ops) = .staleNu d d') := by
+  unfold EGsrc; rw [src_eg_rules]
+  have inv : ∀ (ops : List Op) (s : EGState),
+      (s.started = s.fitted.isSome ∧ (∀ v, s.nuParam = some v → ∃ d', v = .auto d') ∧
+        ∀ d nu, s.fitted = some (d, nu) → ∃ d', nu = .auto d') →
+      (((EG ⟨.reentrant, .current⟩ false).runFrom s ops).started =
+          ((EG ⟨.reentrant, .current⟩ false).runFrom s ops).fitted.isSome ∧
+        (∀ v, ((EG ⟨.reentrant, .current⟩ false).runFrom s ops).nuParam = some v → ∃ d', v = .auto d') ∧
+        ∀ d nu, ((EG ⟨.reentrant, .current⟩ false).runFrom s ops).fitted = some (d, nu) → ∃ d', nu = .auto d') := by
+    intro ops
+    induction ops with
+    | nil => intro s hs; exact hs
+    | cons o os ih =>
+      intro s hs
+      apply ih
+      rcases s with ⟨m, n, st, f⟩
+      obtain ⟨h1, h2, h3⟩ := hs
+      simp only at h1 h2 h3
+      cases o with
+      | fit d =>
+        cases n with
+        | none =>
+          refine ⟨rfl, ?_, ?_⟩
+          · intro v hv
+            simp [EG, egStep, loadConstraints] at hv
+            exact ⟨d, hv.symm⟩
+          · intro d0 nu hf
+            simp [EG, egStep, loadConstraints] at hf
+            exact ⟨d, hf.2.symm⟩
+        | some v0 =>
+          obtain ⟨d', rfl⟩ := h2 v0 rfl
+          refine ⟨rfl, ?_, ?_⟩
+          · intro v hv
+            simp [EG, egStep, loadConstraints] at hv
+            exact ⟨d', hv.symm⟩
+          · intro d0 nu hf
+            simp [EG, egStep, loadConstraints] at hf
+            exact ⟨d', hf.2.symm⟩
+      | predict k =>
+        have e : ((EG ⟨.reentrant, .current⟩ false).step ⟨m, n, st, f⟩ (.predict k)).1 = ⟨m, n, st, f⟩ :=
+          (eg_predict_pure _ _ _ k).1
+        simp only [e]; exact ⟨h1, h2, h3⟩
+      | pickle => exact ⟨h1, h2, h3⟩
+      | clone => exact ⟨rfl, h2, by intro d nu h; cases h⟩
+  obtain ⟨h1, _, h3⟩ := inv ops (EG ⟨.reentrant, .current⟩ false).init
+    ⟨rfl, (by intro v hv; cases hv), (by intro d nu h; cases h)⟩
+  unfold run
+  generalize (EG ⟨.reentrant, .current⟩ false).runFrom (EG ⟨.reentrant, .current⟩ false).init ops = s at h1 h3
+  rcases s with ⟨m, n, st, f⟩
+  simp only at h1 h3
+  cases f with
+  | none => left; simp at h1; simp [egCls, h1]
+  | some p =>
+    obtain ⟨d, nu⟩ := p
+    obtain ⟨d', rfl⟩ := h3 d nu rfl
+    by_cases hd : d' = d
+    · right; left; exact ⟨d, by simp [egCls, egFreshNu, hd]⟩
+    · right; right; exact ⟨d, d', by simp [egCls, egFreshNu, hd]⟩
+
+/-! ### clauses D and E at the level of histories: a prediction / a pickle round trip at the end of ANY history leaves
+the modelled state (hence every later answer) as it was — for the machines under the source-derived flags -/
+
+theorem src_predict_does_not_alter_state (ops : List Op) (k : Nat) :
+    TOsrc.run (ops ++ [.predict k]) = TOsrc.run ops ∧ GSsrc.run (ops ++ [.predict k]) = GSsrc.run ops ∧
+    CRsrc.run (ops ++ [.predict k]) = CRsrc.run ops ∧
+    (∀ g, (EGsrc g).run (ops ++ [.predict k]) = (EGsrc g).run ops) ∧
+    (∀ w, (ADVsrc w).run (ops ++ [.predict k]) = (ADVsrc w).run ops) :=
+  ⟨run_snoc_of_step_id _ _ (fun s => (to_predict_pure _ s k).1) ops,
+   run_snoc_of_step_id _ _ (fun s => (gs_predict_pure _ s k).1) ops,
+   run_snoc_of_step_id _ _ (fun s => (cr_predict_pure _ s k).1) ops,
+   fun g => run_snoc_of_step_id _ _ (fun s => (eg_predict_pure _ g s k).1) ops,
+   fun w => run_snoc_of_step_id _ _ (fun s => by rw [src_adv_machine_eq]; rfl) ops⟩
+
+/-- clause E: ThresholdOptimizer, ExponentiatedGradient, GridSearch, CorrelationRemover restored from pickle are in the
+    state of the original after every history, and the round trip itself succeeds (MODELLING ASSUMPTION, not a lifted
+    fact: `pickle` is the identity on the modelled state; see the tie audit) -/
+theorem src_pickle_restores_state (ops : List Op) :
+    (TOsrc.run (ops ++ [.pickle]) = TOsrc.run ops ∧ (TOsrc.step (TOsrc.run ops) .pickle).2 = .ok) ∧
+    (GSsrc.run (ops ++ [.pickle]) = GSsrc.run ops ∧ (GSsrc.step (GSsrc.run ops) .pickle).2 = .ok) ∧
+    (CRsrc.run (ops ++ [.pickle]) = CRsrc.run ops ∧ (CRsrc.step (CRsrc.run ops) .pickle).2 = .ok) ∧
+    (∀ g, (EGsrc g).run (ops ++ [.pickle]) = (EGsrc g).run ops ∧ ((EGsrc g).step ((EGsrc g).run ops) .pickle).2 = .ok) :=
+  ⟨⟨run_snoc_of_step_id _ _ (fun _ => rfl) ops, rfl⟩, ⟨run_snoc_of_step_id _ _ (fun _ => rfl) ops, rfl⟩,
+   ⟨run_snoc_of_step_id _ _ (fun _ => rfl) ops, rfl⟩, fun _ => ⟨run_snoc_of_step_id _ _ (fun _ => rfl) ops, rfl⟩⟩
+
+/-! ### clause C under today's source: what `fit` does to the object behind `constraints` -/
+
+/-- the lifted facts behind `momentRule = reentrant`: both reductions call `load_data` on the user's object itself (no
+    copy) and no `load_data` refuses a second call.  (`constraintsInPlace` is used by no model function; this theorem
+    is its only consumer.) -/
+theorem src_constraints_loaded_in_place :
+    constraintsInPlace .EG = true ∧ constraintsInPlace .GS = true ∧ constraintsCopied .EG = false ∧
+    constraintsCopied .GS = false ∧ momentLatch = false := by decide +kernel
+
+/-- consequence, kept visible: under today's source `get_params()["constraints"]` is the same OBJECT after fit, but the
+    object has been written to (it holds the data of the last fit) -/
+theorem src_constraints_object_rewritten :
+    gsParams (GSsrc.run [.fit D1]) = ⟨true, some D1⟩ ∧ gsParams gsInit = ⟨false, none⟩ ∧
+    (egParams ((EGsrc true).run [.fit D1, .fit D2])).1 = ⟨true, some D2⟩ := by decide +kernel
+
+/-- … and that is harmless for the property: a GridSearch / ExponentiatedGradient constructed around a constraints
+    object in ANY state (fresh, or loaded by an earlier estimator or by `clone` of a fitted one) shows the
+    specification's view -/
+theorem src_gs_refines_spec_any_moment (m : Moment) (ops : List Op) :
+    (⟨⟨m, none, none⟩, gsStep gsRules⟩ : Machine GSState).view gsCls ops = Spec.view specCls ops := by
+  rw [src_gs_rules]
+  apply view_eq_of_sim (⟨⟨m, none, none⟩, gsStep gsReentrant⟩ : Machine GSState) Spec
+    (fun s t => s.predictors = t.map some ∧ s.bestIdx = t) gsCls specCls ⟨rfl, rfl⟩
+  · rintro ⟨m, p, b⟩ t o ⟨h1, h2⟩
+    simp only at h1 h2; subst h1 h2
+    cases o <;> cases b <;> simp [gsStep, Spec, gsReentrant, loadConstraints]
+  · rintro ⟨m, p, b⟩ t ⟨h1, h2⟩
+    simp only at h1 h2; subst h1 h2
+    cases b <;> simp [gsCls, specCls]
+
+theorem src_eg_refines_spec_any_moment (m : Moment) (ops : List Op) :
+    (⟨⟨m, some .given, false, none⟩, egStep egRules⟩ : Machine EGState).view (egCls true) ops = Spec.view specCls ops := by
+  rw [src_eg_rules]
+  apply view_eq_of_sim (⟨⟨m, some .given, false, none⟩, egStep ⟨.reentrant, .current⟩⟩ : Machine EGState) Spec
+    (fun s t => s.nuParam = some .given ∧ s.started = t.isSome ∧
+                s.fitted = t.map (fun d => (d, Nu.given))) (egCls true) specCls ⟨rfl, rfl, rfl⟩
+  · rintro ⟨m, n, st, f⟩ t o ⟨h1, h2, h3⟩
+    simp only at h1 h2 h3; subst h1 h2 h3
+    cases o <;> cases t <;> simp [egStep, Spec, loadConstraints]
+  · rintro ⟨m, n, st, f⟩ t ⟨h1, h2, h3⟩
+    simp only at h1 h2 h3; subst h1 h2 h3
+    cases t <;> simp [egCls, specCls, egFreshNu]
+
+example : (⟨⟨⟨true, some D2w⟩, none, none⟩, gsStep gsRules⟩ : Machine GSState).view gsCls [.fit D1, .clone, .fit D2] =
+    [(.retSelf, .fresh D1), (.ok, .unfitted), (.retSelf, .fresh D2)] := by decide +kernel
+
+/-- the classes the generated tables cover are the property's estimators plus the helper `_Lagrangian` -/
+theorem src_estimators_cover : ∀ c ∈ allClasses, c = .LAG ∨ c ∈ estimators := by decide +kernel
+
+/-! ### totalisation -/
+
+/-- `advStep` / `advStepSrc` use `s.engine.getD []` when no new engine is built.  On every REACHABLE state that default
+    is never taken: `_is_setup`, `classes_` and `backendEngine_` exist together (so "no setup" implies an engine). -/
+theorem adv_reachable_invariant (r : Rule) (w : Bool) (ops : List Op) :
+    ((Adv r w).run ops).isSetup = ((Adv r w).run ops).engine.isSome ∧
+    ((Adv r w).run ops).hasClasses = ((Adv r w).run ops).isSetup := by
+  have inv : ∀ (ops : List Op) (s : AdvState), (s.isSetup = s.engine.isSome ∧ s.hasClasses = s.isSetup) →
+      (((Adv r w).runFrom s ops).isSetup = ((Adv r w).runFrom s ops).engine.isSome ∧
+       ((Adv r w).runFrom s ops).hasClasses = ((Adv r w).runFrom s ops).isSetup) := by
+    intro ops
+    induction ops with
+    | nil => intro s hs; exact hs
+    | cons o os ih =>
+      intro s hs
+      apply ih
+      cases o with
+      | fit d => exact ⟨rfl, rfl⟩
+      | predict k => exact hs
+      | pickle => exact hs
+      | clone => exact ⟨rfl, rfl⟩
+  exact inv ops advInit ⟨rfl, rfl⟩
+
+/-- hence a refit that keeps the engine really extends an EXISTING training history (never the `[]` default) -/
+theorem adv_refit_uses_existing_engine (r : Rule) (w : Bool) (ops : List Op) (h : ((Adv r w).run ops).isSetup = true) :
+    ∃ hist, ((Adv r w).run ops).engine = some hist := by
+  have := (adv_reachable_invariant r w ops).1
+  rw [h] at this
+  exact Option.isSome_iff_exists.mp this.symm
+
+example : ((Adv .current true).run [.fit D1, .predict 0]).isSetup = true ∧
+    ((Adv .current true).run [.fit D1, .predict 0]).engine = some [D1] := by decide
+
+/-- the driver prints exactly one record per operation: neither the view, nor the changed-parameter column, nor the
+    `zip` of the two inside `fmtView` drops an operation -/
+theorem driver_output_covers_every_op {σ π : Type} [DecidableEq π] (M : Machine σ) (c : σ → Cls) (params : σ → π)
+    (name : String) (ops : List Op) :
+    ((M.view c ops).zip (changedCol M params name ops)).length = ops.length := by
+  simp [List.length_zip, view_length, changedCol_length]
+
+end R2
 
 /-! ## the specification itself carries the clauses of the property -/
 
